@@ -12,6 +12,7 @@ import YorkieModel.Driver.LlrbEngine
 import YorkieModel.Driver.TextEngine
 import YorkieModel.Driver.LocksEngine
 import YorkieModel.Driver.YsonEngine
+import YorkieModel.Driver.CodecEngine
 open Yorkie.Driver
 
 def engines : List (String × Engine) := [
@@ -28,7 +29,9 @@ def engines : List (String × Engine) := [
   ("text", TextEngine.engine),
   ("textif", TextEngine.engine),
   ("locks", LocksEngine.engine),
-  ("yson", YsonEngine.engine)
+  ("yson", YsonEngine.engine),
+  ("codec", CodecEngine.engine),
+  ("pbfuzz", CodecEngine.pbfuzzEngine)
 ]
 
 partial def loop (e : Engine) (h : IO.FS.Stream) (out : IO.FS.Stream) (st : e.State) : IO Unit := do
